@@ -538,6 +538,7 @@ def generate(vc_path, out_dir, canary=False, lenient=False):
                 vis = "pub " if _has_vis(f, block) else ""
                 header = vis + block.header_text().strip()
             block_file = rel
+            block_directive = d
             if d.text().strip():
                 out.ghost(d.text() + "\n")
             out.add(header + " {\n", section="block", src=rel)
@@ -565,8 +566,12 @@ def generate(vc_path, out_dir, canary=False, lenient=False):
                 elif od.name == "endblock":
                     oblock = None
                 elif od.name == "fn" and od.arg.split()[-1] == oname:
-                    found = (k2, oblock)
-                    break
+                    # prefer the function of the block with the same header as the current one
+                    same = (oblock is not None and block is not None and norm_ws(oblock.arg) == norm_ws(block_directive.arg))
+                    if found is None or same:
+                        found = (k2, oblock)
+                    if same or block is None:
+                        break
                 k2 += 1
             if found is None:
                 raise ContractSyntax("@assume_fn: %s not found in %s.vc" % (oname, ou))
@@ -584,6 +589,8 @@ def generate(vc_path, out_dir, canary=False, lenient=False):
             while ods[k2].name != "endfn":
                 if ods[k2].name == "ret": fs.ret = ods[k2].arg.strip()
                 elif ods[k2].name == "sig": fs.sig = ods[k2].text()
+                elif ods[k2].name == "private":
+                    fs.subs.append((r"^(\s*)pub(\([a-z]+\))?\s+fn\b", r"\1fn", "visibility only: contracts of this function mention private fields/spec functions"))
                 elif ods[k2].name == "sub":
                     m2 = re.match(r"/((?:[^/\\]|\\.)*)/((?:[^/\\]|\\.)*)/\s*(.*)$", ods[k2].arg)
                     if m2 and m2.group(1).startswith("pub fn "):
